@@ -444,7 +444,9 @@ type c16Fault struct {
 	File   string            `json:"file"`   // file the fault was planted in
 	Offset int               `json:"offset"` // byte offset of the blamed lexeme in that file
 	Kind   string            `json:"kind"`
-	Exact  bool              `json:"exact"`  // position must equal Offset
+	Exact  bool              `json:"exact"`  // position must lie inside the faulty construct [Offset-Before, Offset+After]
+	Before int               `json:"before"` // bytes of the construct in front of the blamed lexeme
+	After  int               `json:"after"`  // bytes of the construct from the blamed lexeme to its end
 	Exec   bool              `json:"exec"`   // fault shows at execution time
 	Prefix string            `json:"prefix"` // metamorphic: extra text inserted in front of the faulty file
 	// ViaCall: the fault executes inside a macro body; the engine reports it at
@@ -509,7 +511,7 @@ func genC16Fault(t *rapid.T) *c16Fault {
 		post = pick(t, "lexpost", []string{"", " tail", "\nnext line", " {{ 1 }}"})
 	}
 	files := map[string]string{}
-	cs := &c16Fault{Files: files, Kind: sn.kind, Exact: sn.exact, Exec: sn.exec, ViaCall: sn.viaCall}
+	cs := &c16Fault{Files: files, Kind: sn.kind, Exact: sn.exact, Exec: sn.exec, ViaCall: sn.viaCall, Before: sn.blame, After: len(sn.src) - sn.blame}
 	body := pre + sn.src + post
 	cs.Offset = len(pre) + sn.blame
 	switch where {
@@ -676,9 +678,9 @@ func checkC16Fault(c any, r *Rec) error {
 	if err != nil {
 		return fmt.Errorf("%s: %v\n files=%q", cs.Kind, err, cs.Files)
 	}
-	if has && cs.Exact && off != cs.Offset {
+	if has && cs.Exact && (off < cs.Offset-cs.Before || off > cs.Offset+cs.After) {
 		l, cl := lineCol(cs.Files[cs.File], cs.Offset)
-		return fmt.Errorf("%s: error points to line %d col %d (offset %d), the faulty lexeme is at line %d col %d (offset %d) of %s: %v\n files=%q", cs.Kind, e.Line, e.Column, off, l, cl, cs.Offset, cs.File, e, cs.Files)
+		return fmt.Errorf("%s: error points to line %d col %d (offset %d), outside the faulty construct (offsets %d..%d, faulty lexeme at line %d col %d) of %s: %v\n files=%q", cs.Kind, e.Line, e.Column, off, cs.Offset-cs.Before, cs.Offset+cs.After, l, cl, cs.File, e, cs.Files)
 	}
 	r.Class("kind:" + cs.Kind)
 	r.Class("file:" + cs.File)
